@@ -25,6 +25,11 @@ def run(ctx):
                     "checked nondeterminism: allocation results are taken from the implementation and validated by allocate_spec/from_pool_spec/additional_spec; sort.Slice in sortPools and map iteration order are not modelled",
                     "domain: services have >= 1 port (API server rule); pools pairwise disjoint (C08)"]
     ctx.trusted += cc.TRUST
+    if ctx.tier == "thorough":
+        # once per tree: independent re-check of the whole development (all property modules)
+        ok, lines = ctx.coqchk_all()
+        ctx.cov["coqchk"] = {"ok": ok, "output_tail": lines}
+        ctx.trusted.append("coqchk -o (independent checker) run over all Properties modules in this thorough run; its axiom listing is in coverage.coqchk")
     ctx.finish(len(acases) + len(ccases), distinct,
                "allocator level: random operation histories on a real Allocator (results, holdings, counters and checkSharing probes compared after every operation); "
                "controller level: random event histories through the real ServiceReconciler/controller against a fake API server with failing writes and restarts, compared event by event; "
